@@ -41,7 +41,7 @@ def run(tier, seed, replay=None):
         rc = corpus.hungarian_cases(corpus.capture(["tests/solvors/test_hungarian.py"]))
         ck.extra["inputs_recorded_from_repository_tests"] = len(rc)
         cases += rc
-    res = run_tasks("assign", "run_hungarian", cases, timeout=20)
+    res = run_tasks("assign", "run_hungarian", cases, timeout=120)
     trs = []
     for r, c in zip(res, cases):
         if not isinstance(r, dict) or "events" not in r:
@@ -86,7 +86,7 @@ def run(tier, seed, replay=None):
         ck.control(f"corrupted trace rejected ({exp})", (not v["ok"]) and v["why"] == exp, str(v))
     # ---- step level: potentials and matching after every row insertion (hook events) against Hungarian.tla's invariants
     sc = [c for c in cases[nexp:] if "expect" not in c][: 400 if tier == "quick" else 5000] + cases[:nexp][:100]
-    st = [x for r in run_tasks("assign", "run_hungarian_steps", sc, timeout=20) if isinstance(r, dict) for x in r.get("steps", [])]
+    st = [x for r in run_tasks("assign", "run_hungarian_steps", sc, timeout=120) if isinstance(r, dict) for x in r.get("steps", [])]
     if len(st) < len(sc):
         raise tlc.MachineryError("hungarian stage traces could not be recorded (%d from %d matrices)" % (len(st), len(sc)))
     sv = ck.validate(DIR, "HungarianSteps", st, "potentials and matching after every row insertion", timeout=3000)
